@@ -200,6 +200,12 @@ func (e *evaluator) run(fn *ssa.Function, args []evVal, depth int) evStop {
 			return evVal{k: evConst, c: x.Value, t: x.Type()}
 		case *ssa.Function:
 			return evVal{k: evFunc, fn: x}
+		case *ssa.FreeVar:
+			// used as a value (the receiver bound by a method value)
+			if c := freeCells[x]; c != nil {
+				return *c
+			}
+			return evVal{}
 		case *ssa.Global:
 			if o := e.globalObj(x); o != nil {
 				return evVal{k: evObject, obj: o}
